@@ -348,6 +348,12 @@ class Gen(object):
         at = self.attrs(indent + '  ')
         if at:
             self.stats.hit('attrs-on:field')
+        if not embedded and rng.random() < 0.12:
+            # a bit-field member: FieldBlob.bits (8 bits wide)
+            a += ' bits="%d"' % rng.choice([1, 2, 3, 7, 8, 15, 31, 32])
+            self.stats.hit('field:bits')
+            t = ('t', rng.choice(['guint', 'gint', 'guint8', 'gboolean', 'guint64']), None, [])
+            return '%s<field%s>\n%s%s%s</field>\n' % (indent, a, at, self.render_type(t, indent + '  '), indent)
         if embedded:
             _, cb = self.callback(indent + '  ', nm=nm, toplevel=False)
             self.stats.hit('field:embedded')
@@ -787,12 +793,12 @@ class Api(object):
     (what g-ir-compiler reads); dialect 'generate' = what girwriter.c writes.  Values the GIR text
     does not determine are emitted as `*` (matched as wildcard):
       * struct/union size, alignment, field offsets, enum storage type (computed by giroffsets.c: C08);
-      * field bit size (girnode.c always stores 0);
       * `pointer=` in the generate dialect (g-ir-generate writes no c:type).
     Everything else a GIR element says is expected literally from the API and from g-ir-generate:
     return-value skip/nullable/allow-none and <attribute>s for every callable kind, <attribute>s of
     fields, properties, enum members and class-level constants on THAT node, field readable="0",
-    property deprecated, deprecated="0" / glib:fundamental="0" meaning false."""
+    property deprecated, deprecated="0" / glib:fundamental="0" meaning false, the bit width of a
+    bit-field member (`bits`, FieldBlob.bits)."""
 
     def __init__(self, text, dialect):
         self.dialect = dialect
@@ -1024,7 +1030,8 @@ class Api(object):
         readable = 0 if e.get('readable') == '0' else 1       # fields are readable unless readable="0"
         writable = 1 if e.get('writable') == '1' else 0
         flags = str(readable + 2 * writable)
-        self.p('%s field name=%s flags=%s size=* offset=*' % (path, e.get('name'), flags))
+        bits = e.get('bits')
+        self.p('%s field name=%s flags=%s size=%d offset=*' % (path, e.get('name'), flags, int(bits) if bits else 0))
         if self.skipped(e):
             self.p('%s attrget.missing=(null)' % path)
             self.p('%s.t type tag=0 pointer=1' % path)
@@ -1822,7 +1829,7 @@ def run(ctx):
     ctx.assumptions.extend([
         'girwriter.c (typelib -> GIR text) is NOT modelled: g-ir-generate output is compared as an API tree with the source GIR (validated, not proved)',
         'GIR -> blob translation (girparser.c/girnode.c) belongs to C06: constructs the typelib format or the compiler does not store '
-        'are not generated (field bits, vfunc must-chain-up/override/is-class-closure, signal has-class-closure, an instance '
+        'are not generated (vfunc must-chain-up/override/is-class-closure, signal has-class-closure, an instance '
         'parameter on a callback, deprecated on fields/vfuncs); everything generated is expected literally',
         'values computed by giroffsets.c (struct size/alignment, field offsets, enum storage) are wildcards in the oracle (C08)',
         'normalisation of g-ir-generate dialect: no c:type (pointer flags not compared), allow-none = nullable, type-name/get-type on '
